@@ -337,7 +337,15 @@ func mutate(t *tape.Tape, text string) (string, string) {
 	}
 }
 
-func genText(c *wk.Case) (font *sfnt.Font, fontName, text, kind string) {
+// constructed is set by genText for kind "constructed": the lookup list the
+// text was derived from (with Explain, unmutated) and whether it is GSUB.
+type constructed struct {
+	ll   gtab.LookupList
+	gsub bool
+	gen  *simgen.ExprGen
+}
+
+func genText(c *wk.Case) (font *sfnt.Font, fontName, text, kind string, cons *constructed) {
 	t := c.T
 	switch t.Weighted(10, 4, 4, 1) {
 	case 0:
@@ -349,7 +357,41 @@ func genText(c *wk.Case) (font *sfnt.Font, fontName, text, kind string) {
 	default:
 		font, fontName = fontNoCmap, "goregular(names,no cmap)"
 	}
-	switch t.Weighted(5, 3, 1) {
+	what := t.Weighted(5, 3, 1, 3)
+	if what == 3 && font.CMapTable == nil {
+		what = 0 // Parse refuses a font without a character map
+	}
+	switch what {
+	case 3:
+		// Explain of a lookup list constructed inside the domain the language
+		// has syntax for (simgen.ExprGen), unmutated: judged strictly
+		g := &simgen.ExprGen{T: t, N: min(font.NumGlyphs(), 60)}
+		if best, _ := font.CMapTable.GetBest(); best != nil {
+			for _, r := range []rune{'\\', '"', 'n', 't', '-', ']', 'A', 'f', 'x', 'y'} {
+				if gid := best.Lookup(r); gid != 0 && int(gid) < g.N {
+					g.Hot = append(g.Hot, gid)
+				}
+			}
+		}
+		cons = &constructed{gsub: t.Chance(1, 2), gen: g}
+		cons.ll = g.List(cons.gsub)
+		f2 := font.Clone()
+		simhook.OrderID = uint64(t.Draw(4)) // Explain ranges over coverage maps
+		pi := c.Guard(func() {
+			if cons.gsub {
+				f2.Gsub = &gtab.Info{LookupList: cons.ll}
+				text = builder.ExplainGsub(f2)
+			} else {
+				f2.Gpos = &gtab.Info{LookupList: cons.ll}
+				text = strings.Join(builder.ExplainGpos(f2), "\n")
+			}
+		})
+		simhook.OrderID = 0
+		if pi != nil {
+			c.FailPanic("Explain(constructed lookups)", pi)
+		}
+		kind = "constructed"
+		return
 	case 0:
 		// sample-derived: a tape-chosen subset of the lookups of the samples
 		var blocks []string
@@ -472,7 +514,7 @@ func genText(c *wk.Case) (font *sfnt.Font, fontName, text, kind string) {
 var lineNo = regexp.MustCompile(`^(\d+):`)
 
 func run(c *wk.Case) {
-	font, fontName, text, kind := genText(c)
+	font, fontName, text, kind, cons := genText(c)
 	c.Sample = map[string]any{"font": fontName, "kind": kind, "text": text}
 	c.Logf("font %s, text kind %s:\n%s", fontName, kind, text)
 	c.SigString(fontName + "\x00" + text)
@@ -509,6 +551,46 @@ func run(c *wk.Case) {
 		// glyph names and characters they mention.  (The extra blocks are the
 		// harness author's reading of the syntax and are not judged this way.)
 		c.Fail("documented-syntax-rejected", errClass(text, out.err), "a description in the documented syntax is rejected: %v\n--- description\n%s", out.err, text)
+	}
+	if out.err != nil && cons != nil {
+		// the lookup list was constructed inside the domain the language has
+		// syntax for, and the text is what Explain wrote for it
+		c.Fail("notation-round-trip", "constructed-rejected/"+errClass(text, out.err), "the description Explain writes for an expressible lookup list is rejected by Parse: %v\n--- description\n%s", out.err, text)
+	}
+	if out.err == nil && cons != nil {
+		c.Count("constructed_lookup_lists_described_and_parsed", 1)
+		if len(out.lookups) != len(cons.ll) {
+			c.Fail("notation-round-trip", "constructed-different/number-of-lookups", "%d lookups were described, %d came back\n--- description\n%s", len(cons.ll), len(out.lookups), text)
+		}
+		for i, lt := range out.lookups {
+			if lt.Meta.LookupType != cons.ll[i].Meta.LookupType || lt.Meta.LookupFlags != cons.ll[i].Meta.LookupFlags {
+				c.Fail("notation-round-trip", "constructed-different/type-or-flags", "lookup %d: type %d flags %#x were described, type %d flags %#x came back\n--- description\n%s",
+					i, cons.ll[i].Meta.LookupType, cons.ll[i].Meta.LookupFlags, lt.Meta.LookupType, lt.Meta.LookupFlags, text)
+			}
+		}
+		// the parsed list must act like the described one (formats may be
+		// chosen differently, so the comparison is by behaviour)
+		var all []gtab.LookupIndex
+		for i := range cons.ll {
+			all = append(all, gtab.LookupIndex(i))
+		}
+		for k := 0; k < 6; k++ {
+			seq := make([]glyph.Info, c.T.Range(1, 8))
+			for i := range seq {
+				seq[i] = glyph.Info{GID: cons.gen.GID(), Text: []rune{rune('a' + i)}}
+			}
+			var want, got []glyph.Info
+			p1 := c.Guard(func() { want = gtab.NewContext(cons.ll, nil, all).Apply(append([]glyph.Info(nil), seq...)) })
+			p2 := c.Guard(func() { got = gtab.NewContext(out.lookups, nil, all).Apply(append([]glyph.Info(nil), seq...)) })
+			if p1 != nil || p2 != nil {
+				c.Count("constructed_apply_panicked_(C07,_not_judged_here)", 1)
+				continue
+			}
+			c.Count("constructed_behaviour_comparisons", 1)
+			if d := simgen.DeepDiff(want, got, 0, false); d != "" {
+				c.Fail("notation-round-trip", "constructed-behaves-differently/"+fmt.Sprintf("type%d", cons.ll[0].Meta.LookupType), "Parse(Explain(L)) acts differently from L on the glyph sequence %v: %s\n--- description\n%s", gidsOf(seq), d, text)
+			}
+		}
 	}
 	if out.err != nil && (kind == "explain" || kind == "explain-ligatures") {
 		// Not judged: whether generated lookups are "expressible" would have
@@ -576,6 +658,14 @@ func run(c *wk.Case) {
 	c.Count("notation_round_trips_(incidental)", 1)
 }
 
+func gidsOf(seq []glyph.Info) []glyph.ID {
+	var r []glyph.ID
+	for _, g := range seq {
+		r = append(r, g.GID)
+	}
+	return r
+}
+
 var quoted = regexp.MustCompile(`"[^"]*"|[0-9]+`)
 
 // errClass summarises (kind of the lookup in which the error occurs, error
@@ -598,6 +688,11 @@ func errClass(text string, err error) string {
 		msg = msg[i+2:]
 	}
 	msg = quoted.ReplaceAllString(msg, "_")
+	for _, pre := range []string{"unknown lookup flag", "undefined class", "empty class", "duplicate"} {
+		if strings.HasPrefix(msg, pre) {
+			msg = pre // the rest names a token of the text
+		}
+	}
 	if len(msg) > 40 {
 		msg = msg[:40]
 	}
